@@ -1400,6 +1400,10 @@ def _enc_vars(vs, keep_order=False):
     return "(vars" + "".join(f" {k}" for k in ks) + ")"
 
 
+def _enc_ovars(vs):
+    return "none" if vs is None else _enc_vars(vs)
+
+
 _RELOP = {"=": "eq", "!=": "ne", "<": "lt", ">": "gt", "<=": "le", ">=": "ge"}
 
 
@@ -1436,8 +1440,8 @@ def _enc_expr(e):
 def encode_rdflib_algebra(p):
     """s-expression of a node of rdflib's translated algebra (prepareQuery(...).algebra), annotations included
     exactly where evaluate.py reads them:
-       (bgp s p o …) (join LAZY a b) (leftjoin a b expr none|(vars p1._vars) (vars p2._vars))
-       (filter expr a (vars _vars) NOISO) (union a b) (minus a b (vars p1._vars)) (extend a k expr (vars _vars))
+       (bgp s p o …) (join LAZY a b) (leftjoin a b expr none|(vars p1._vars) none|(vars p2._vars))
+       (filter expr a (vars _vars) NOISO) (union a b) (minus a b none|(vars p1._vars) none|(vars p2._vars)) (extend a k expr (vars _vars))
        (graph pos a) (values (vars …) (row …)…) (project a (vars PV)) [a sub-select: ToMultiSet(Project)]
        root: (select (vars PV) a) | (ask (vars PV) a) | (construct (tri …) (vars PV) a)
     Nodes inside EXISTS are never annotated by rdflib (`lazy`, `_vars` are None there)."""
@@ -1447,16 +1451,16 @@ def encode_rdflib_algebra(p):
     if n == "Join":
         return f"(join {1 if p.lazy else 0} {encode_rdflib_algebra(p.p1)} {encode_rdflib_algebra(p.p2)})"
     if n == "LeftJoin":
-        v1 = p.p1._vars
         return (f"(leftjoin {encode_rdflib_algebra(p.p1)} {encode_rdflib_algebra(p.p2)} {_enc_expr(dict.get(p, 'expr'))} "
-                f"{'none' if v1 is None else _enc_vars(v1)} {_enc_vars(p.p2._vars)})")
+                f"{_enc_ovars(p.p1._vars)} {_enc_ovars(p.p2._vars)})")
     if n == "Filter":
         return (f"(filter {_enc_expr(dict.get(p, 'expr'))} {encode_rdflib_algebra(p.p)} {_enc_vars(p._vars)} "
                 f"{1 if p.no_isolated_scope else 0})")
     if n == "Union":
         return f"(union {encode_rdflib_algebra(p.p1)} {encode_rdflib_algebra(p.p2)})"
     if n == "Minus":
-        return f"(minus {encode_rdflib_algebra(p.p1)} {encode_rdflib_algebra(p.p2)} {_enc_vars(p.p1._vars)})"
+        return (f"(minus {encode_rdflib_algebra(p.p1)} {encode_rdflib_algebra(p.p2)} {_enc_ovars(p.p1._vars)} "
+                f"{_enc_ovars(p.p2._vars)})")
     if n == "Extend":
         return (f"(extend {encode_rdflib_algebra(p.p)} {_vid(p.var)} {_enc_expr(dict.get(p, 'expr'))} "
                 f"{_enc_vars(p._vars)})")
@@ -1732,11 +1736,16 @@ def alg_problems(a, out=None):
         alg_problems(a[2], out)
     elif k == "minus":
         alg_problems(a[1], out); alg_problems(a[2], out)
-        out |= scope_problems(alg_may(a[2]), _ints(a[3]), alg_must(a[1]), alg_may(a[1]))
+        if a[3] == "none":
+            out.add("exists-unsupported")
+        else:
+            out |= scope_problems(alg_may(a[2]), _ints(a[3]), alg_must(a[1]), alg_may(a[1]))
+        if a[4] != "none" and any(v not in _ints(a[4]) for v in alg_may(a[2])):
+            out.add("K2")  # the right side's `_vars` misses a variable it binds (VALUES)
     elif k == "leftjoin":
         alg_problems(a[1], out); alg_problems(a[2], out); ex(a[3])
         p1 = None if a[4] == "none" else _ints(a[4])
-        own = (p1 or []) + _ints(a[5])
+        own = [] if (a[4] == "none" or a[5] == "none") else _ints(a[4]) + _ints(a[5])
         out |= scope_problems(expr_vars(a[3]), own, alg_must(a[1]) + alg_must(a[2]), alg_may(a[1]) + alg_may(a[2]))
         if p1 is None:
             out.add("exists-unsupported")
